@@ -854,8 +854,9 @@ def search(ctx, sc, only=None):
                     break
             else:
                 guarded(ctx, what + ' aliasing', lambda: search_alias_values(ctx, im, cls, attr))
-        if not only or only[1] in ('__getitem__', 'add', 'observe', 'parent', 'add_observer', 'add_sight_line', 'add_foil_detector', '__init__'):
+        if not only or only[1] in ('__getitem__', 'add', 'observe', 'parent', 'add_observer', 'add_sight_line', 'add_foil_detector', '__init__') + MEMBER_LIST_ATTRS:
             guarded(ctx, c['name'] + ' type filter', lambda: search_type_filter(ctx, im, cls))
+            guarded(ctx, c['name'] + ' rejected operations', lambda: search_rejected_ops(ctx, im, cls))
             guarded(ctx, c['name'] + ' membership', lambda: search_membership(ctx, im, cls))
             guarded(ctx, c['name'] + ' retrieval histories', lambda: search_retrieval_histories(ctx, im, cls))
 
@@ -1197,6 +1198,114 @@ def search_alias_values(ctx, im, cls, attr):
                     return
 
 
+def search_rejected_ops(ctx, im, cls):
+    """a refused group operation leaves EVERYTHING untouched.  Two groups of the class and a loose observer live in one
+    World; every entry point that validates (add method(s), member-list setters, constructor argument, broadcast setters'
+    length check) is called on `other` with an invalid argument built from a wrong-typed element at the first / middle /
+    last position and *valid* elements that belong to the other group, to the world, or to nobody.  If the call raises, the
+    snapshot of the whole scene must be unchanged: membership of both groups, parent of every object involved, children of
+    both groups and of the world, names and every per-member setting, the camera's slit list.
+    (That the call raises at all is the business of `search_type_filter` / `search_attr`.)"""
+    from raysect.optical import World
+    U = im.U
+    add_names = [a for a in ('add_observer', 'add_sight_line', 'add_foil_detector') if hasattr(cls, a)]
+
+    def scene():
+        world = World()
+        owner, other = cls(parent=world, name='owner'), cls(parent=world, name='other')
+        a, b, c = (make_member(im.member_kind, t) for t in 'abc')
+        for o, nm in ((a, 'a'), (b, 'b'), (c, 'c')):
+            o.name = nm
+        im.add(owner, a); im.add(owner, b); im.add(other, c)
+        loose = make_member(im.member_kind, 'loose'); loose.name = 'loose'; loose.parent = world
+        free = make_member(im.member_kind, 'free'); free.name = 'free'
+        return world, owner, other, dict(a=a, b=b, c=c, loose=loose, free=free)
+
+    def snapshot(world, owner, other, objs):
+        snap = {}
+        for g, nm in ((owner, 'owner'), (other, 'other')):
+            snap['members:' + nm] = [id(o) for o in im.members(g)]
+            snap['children:' + nm] = sorted(id(o) for o in g.children)
+            if hasattr(g, 'slits'):
+                snap['slits:' + nm] = [id(x) for x in g.slits]
+        snap['children:world'] = sorted(id(o) for o in world.children)
+        for k, o in objs.items():
+            if hasattr(o, 'parent'):
+                snap['parent:' + k] = id(o.parent) if o.parent is not None else None
+            vals = []
+            for at in im.mattrs:
+                try:
+                    vals.append(U.canon(at, getattr(o, at)))
+                except Exception:  # noqa
+                    vals.append('-')
+            snap['settings:' + k] = vals
+        return snap
+
+    def attempt(entry, describe, call, wrong_kind):
+        world, owner, other, objs = scene()
+        w = make_member(wrong_kind, 'wrong')
+        if hasattr(w, 'parent'):
+            w.parent = world                  # the wrong-typed node is owned by the world
+        objs = dict(objs, wrong=w)
+        before = snapshot(world, owner, other, objs)
+        st = outcome(lambda: call(other, objs))
+        ctx.case(key=('S', im.name, 'rejected', entry, describe, wrong_kind))
+        if st == 'ok':
+            return True                       # accepted: not a rejected operation (type filter oracle decides)
+        after = snapshot(world, owner, other, objs)
+        if after != before:
+            changed = sorted(k for k in before if before[k] != after.get(k))
+            ctx.fail('C15:%s.%s:rejected-operation-changes-state' % (im.name, entry),
+                     '%s: `other.%s` with %s (wrong element: %s) raises %s but changed %s  [owner=[a,b], other=[c], loose owned by the world]' % (
+                         im.name, entry, describe, wrong_kind, st, changed),
+                     dict(cls=im.name, attr=entry, argument=describe, wrong=wrong_kind, raised=st, changed=changed))
+            return False
+        return True
+
+    wrongs = im.wrong_kinds
+    for ml in im.mlist:
+        layouts = [('[WRONG, a, loose]', lambda o: [o['wrong'], o['a'], o['loose']]),
+                   ('[a, WRONG, loose]', lambda o: [o['a'], o['wrong'], o['loose']]),
+                   ('[a, loose, WRONG]', lambda o: [o['a'], o['loose'], o['wrong']]),
+                   ('[free, b, c, WRONG]', lambda o: [o['free'], o['b'], o['c'], o['wrong']]),
+                   ('(a, WRONG) as tuple', lambda o: (o['a'], o['wrong'])),
+                   ('a single observer instead of a list', lambda o: o['a'])]
+        done = False
+        for wk in wrongs:
+            for desc_, build in layouts:
+                if not attempt(ml, desc_, (lambda g, o, build=build, ml=ml: setattr(g, ml, build(o))), wk):
+                    done = True
+                    break
+            if done:
+                break
+    for an in add_names:
+        for wk in wrongs:
+            if not attempt(an, 'a wrong-typed object owned by the world', (lambda g, o, an=an: getattr(g, an)(o['wrong'])), wk):
+                break
+    # Not claimed: the constructor's `observers=[a, loose, WRONG]`.  It is documented and written as a loop of add_observer():
+    # the two accepted adds take `a` and `loose` over before the third add is refused, so the state change stems from
+    # *accepted* operations (taking over a member of another group is outside the property sentence), and each refused
+    # add by itself leaves everything untouched (checked above).  Counted as an observation only.
+    if im.c['family'] == 'observer0D':
+        world, owner, other, objs = scene()
+        w = make_member(wrongs[0], 'wrong')
+        before = snapshot(world, owner, other, objs)
+        if outcome(lambda: cls(observers=[objs['a'], objs['loose'], w])) != 'ok' and snapshot(world, owner, other, objs) != before:
+            ctx.count('S:observation:refused-constructor-keeps-earlier-adoptions')
+    # broadcast setters: the length check is the validation
+    for name in im.bcast:
+        d = im.desc[name]
+        if not d['setter'] or d['setter']['kind'] != 'broadcast' or d['getter'].get('attr') != expected_member(name):
+            continue
+        mattr = expected_member(name)
+        for m in (0, 2):                      # `other` has one member
+            vals = [im.member_value(mattr) for _ in range(m)]
+            if name == 'targets' and m:
+                continue                      # a flat list is the documented shared form
+            if not attempt(name, 'a list of %d values for a group of 1' % m, (lambda g, o, vals=vals, name=name: setattr(g, name, list(vals))), wrongs[0]):
+                break
+
+
 NAME_POOL = ('alpha', 'beta', 'gamma', 'delta', 'eps')
 
 
@@ -1436,8 +1545,8 @@ def run(ctx, only=None):
     ctx.count('T:descriptors', len(sc['table']))
     # 2. T
     ok_generic = ctx.lean_check(['Cherab.Props.C15'], 'Cherab/Audit/C15.lean')
-    ok_aux = ctx.lean_check(['Cherab.Props.C15TableAux'], 'Cherab/Audit/C15TableAux.lean')
     nb = len(ctx.broken)
+    ok_aux = ctx.lean_check(['Cherab.Props.C15TableAux'], 'Cherab/Audit/C15TableAux.lean')
     ok_table = ctx.lean_check(['Cherab.Props.C15Table'], 'Cherab/Audit/C15Table.lean')
     table_broken = ctx.broken[nb:]
     ctx.checker_cmd = ('cd %s && lake build Cherab.Props.C15 Cherab.Props.C15TableAux Cherab.Props.C15Table && '
@@ -1520,7 +1629,12 @@ def replay(ctx, path):
     if only:
         sc = tr.scan()
         ctx.rule = 'replay of one (class, attribute) through the direct oracles'
+        for m, a in (('Cherab.Props.C15', 'Cherab/Audit/C15.lean'), ('Cherab.Props.C15TableAux', 'Cherab/Audit/C15TableAux.lean'),
+                     ('Cherab.Props.C15Table', 'Cherab/Audit/C15Table.lean')):
+            ctx.lean_check([m], a)
         search(ctx, sc, only)
+        for b in ctx.broken:                      # the replayed failing input is the explanation
+            b['explained_by_known'] = bool(ctx.failing or ctx.known_hits)
         return ctx.finish()
     run(ctx)
     return ctx.finish()
